@@ -90,7 +90,7 @@ func (m *Model) stripeType() string {
 		if obj := m.P.Xsync.Pkg.Scope().Lookup(mm.TableT); obj != nil {
 			if ts := structOf(obj.Type()); ts != nil {
 				for i := 0; i < ts.NumFields(); i++ {
-					if sl, ok := ts.Field(i).Type().(*types.Slice); ok {
+					if sl, ok := ts.Field(i).Type().Underlying().(*types.Slice); ok {
 						if n := namedOf(sl.Elem()); n != "" && !contains(mm.BucketT, n) {
 							return n
 						}
